@@ -36,6 +36,7 @@ pub struct Stats {
     pub qos2_overlap_ooo: u32,
     pub acks_out_of_order: u32,
     pub failure_codes: u32,
+    pub failing_payloads: u32,
     pub max_distinct_status: u32,
     pub deliveries: u32,
     pub inbound_qos2_dups: u32,
@@ -472,6 +473,19 @@ impl<'a> Model<'a> {
                 if let (true, true, Some(pid), true) = (m >= 5, replays_fit, rel, self.owed.is_empty()) {
                     self.bad("C03", "C03/pubrel-refused-as-too-large", format!("op {op} ({kind:?}) returned PacketTooLarge with Maximum Packet Size {m} while the 5-byte PUBREL for id {pid} is owed and nothing else that is owed exceeds the limit"));
                     self.bad("C14", "C14/fitting-packet-refused/PUBREL", format!("op {op} ({kind:?}) returned PacketTooLarge with Maximum Packet Size {m} while only a PUBREL (5 bytes) for id {pid} is owed"));
+                }
+            }
+        }
+        // a publish whose payload serialisation fails must be refused (C19: invalid requests are
+        // refused locally; C09: nothing the application did not provide may be sent)
+        if kind == OpKind::Publish {
+            let (ci, si) = rec.step;
+            let failing = matches!(self.case.conns.get(ci).and_then(|c| c.steps.get(si)), Some(Step::Publish(ps)) if ps.via == 3);
+            if failing {
+                self.stats.failing_payloads += 1;
+                // (any error is fine: the handle may be dead, the window closed, ... - but never Ok)
+                if matches!(res, OpRes::Ok | OpRes::Handle(_)) {
+                    self.bad("C19", "C19/failing-payload-accepted", format!("op {op}: publish returned {res:?} although its payload could not be serialised"));
                 }
             }
         }
